@@ -59,5 +59,22 @@ fn parse_comment<'n>(node: Node<'n, 'n>) -> Option<String> {
 }
 
 pub fn xml_name_to_rust_name(xml_name: &str) -> String {
-    to_pascal_case(xml_name)
+    match as_rust_identifier(&to_pascal_case(xml_name)) {
+        // the only keyword that survives PascalCase
+        name if name == "Self" => "Self_".to_string(),
+        name => name,
+    }
+}
+
+/// Reduce arbitrary text to the characters an identifier may consist of; XML names allow more
+/// (dots, dashes, leading digits), and schema files may contain anything.
+pub fn as_rust_identifier(name: &str) -> String {
+    let mut identifier: String = name
+        .chars()
+        .filter(|c| c.is_alphabetic() || c.is_ascii_digit() || *c == '_')
+        .collect();
+    if identifier.is_empty() || identifier.starts_with(|c: char| c.is_ascii_digit()) {
+        identifier.insert(0, '_');
+    }
+    identifier
 }
